@@ -1046,3 +1046,118 @@ func (pc *pCtx) t1Promoted(only string) {
 		}
 	}
 }
+
+// p2StopChannels: a function that waits in several selects can be told to stop in each of them: every signal channel (a
+// context's Done(), a captured `chan struct{}` such as the teardown's done channel) that one of its blocking selects
+// watches is watched by all of them. A goroutine restructured into "wait for the first tick, then loop" that forgets the
+// teardown's channel in its first phase stays parked after the subscription was closed.
+func (pc *pCtx) p2StopChannels(only string) {
+	var paths []string
+	for p := range pc.kc.w.ByPath {
+		if isRoPkg(p) && !strings.Contains(p, "/examples/") && !strings.HasSuffix(p, "/testing") && !strings.Contains(p, "/internal/") {
+			paths = append(paths, p)
+		}
+	}
+	sort.Strings(paths)
+	var keyOf func(v ssa.Value) string
+	keyOf = func(v ssa.Value) string {
+		switch t := v.(type) {
+		case *ssa.UnOp:
+			if t.Op == token.MUL {
+				switch x := t.X.(type) {
+				case *ssa.FreeVar:
+					return x.Name()
+				case *ssa.Alloc:
+					return x.Comment
+				}
+			}
+		case *ssa.Call:
+			c := t.Common()
+			if c.IsInvoke() && c.Method.Name() == "Done" && isContextType(c.Value.Type()) {
+				return "Done(" + c.Value.Name() + ")"
+			}
+		case *ssa.Parameter:
+			return t.Name()
+		case *ssa.FreeVar:
+			return t.Name()
+		case *ssa.ChangeType:
+			return keyOf(t.X)
+		case *ssa.MakeChan:
+			return "make:" + t.Name()
+		}
+		return ""
+	}
+	isSignal := func(v ssa.Value) bool {
+		if c, ok := v.(*ssa.Call); ok && c.Common().IsInvoke() && c.Common().Method.Name() == "Done" {
+			return true
+		}
+		ch, ok := v.Type().Underlying().(*types.Chan)
+		if !ok {
+			return false
+		}
+		st, ok := ch.Elem().Underlying().(*types.Struct)
+		return ok && st.NumFields() == 0
+	}
+	for _, p := range paths {
+		fns := pc.kc.w.allFuncs(p)
+		for _, k := range sortedKeys(fns) {
+			fn := fns[k]
+			if fn.Blocks == nil || strings.HasSuffix(pc.kc.w.Prog.Fset.Position(fn.Pos()).Filename, "_test.go") {
+				continue
+			}
+			name := k
+			if p != roPath {
+				name = strings.TrimPrefix(p, roPath+"/") + "." + k
+			}
+			if only != "" && !strings.Contains(name, only) {
+				continue
+			}
+			var sels []*ssa.Select
+			for _, b := range fn.Blocks {
+				for _, ins := range b.Instrs {
+					if sel, ok := ins.(*ssa.Select); ok && sel.Blocking {
+						sels = append(sels, sel)
+					}
+				}
+			}
+			if len(sels) < 2 {
+				continue
+			}
+			signals := map[string]bool{}
+			watch := make([]map[string]bool, len(sels))
+			for i, sel := range sels {
+				watch[i] = map[string]bool{}
+				for _, st := range sel.States {
+					if st.Dir != types.RecvOnly {
+						continue
+					}
+					key := keyOf(st.Chan)
+					if key == "" {
+						continue
+					}
+					watch[i][key] = true
+					if isSignal(st.Chan) {
+						// contexts are compared by method, not by SSA name: one Done() per select is one signal
+						if strings.HasPrefix(key, "Done(") {
+							key = "Done()"
+							watch[i][key] = true
+						}
+						signals[key] = true
+					}
+				}
+			}
+			missing := ""
+			var at token.Pos
+			for i, sel := range sels {
+				for _, sg := range sortedStrs(signals) {
+					if !watch[i][sg] && missing == "" {
+						missing = fmt.Sprintf("the select at %s does not watch %s, which another select of the function does", pc.pos(sel.Pos()), sg)
+						at = sel.Pos()
+					}
+				}
+			}
+			pc.add([]string{"C03", "C14", "C16"}, fmt.Sprintf("P2/%s/every-select-watches-the-stop-channels", name),
+				"every blocking select of a function watches every signal channel (a context's Done(), a captured chan struct{}) that another of its selects watches", missing == "", missing, pc.pos(at))
+		}
+	}
+}
